@@ -41,6 +41,10 @@ type Exchange struct {
 	Host     string `json:"host"`
 	Target   string `json:"target"` // raw path?query as written on the wire
 	HTTP10   bool   `json:"http10,omitempty"`
+	// KeepAlive10: an HTTP/1.0 request line with "Connection: keep-alive" - the
+	// client asked to keep the connection, so the exchange is not close-marked and
+	// the response must be delimited without closing (however the origin framed it).
+	KeepAlive10 bool `json:"keepalive10,omitempty"`
 	Headers  []Hdr  `json:"headers,omitempty"`
 	ReqFrame string `json:"req_frame"` // none | cl | chunked
 	ReqSize  int    `json:"req_size,omitempty"`
@@ -134,7 +138,7 @@ func (e *Exchange) reqBody() []byte {
 func (e *Exchange) wireRequest(id string) []byte {
 	var b bytes.Buffer
 	proto := "HTTP/1.1"
-	if e.HTTP10 {
+	if e.HTTP10 || e.KeepAlive10 {
 		proto = "HTTP/1.0"
 	}
 	switch e.Form {
@@ -152,6 +156,8 @@ func (e *Exchange) wireRequest(id string) []byte {
 	}
 	if e.ReqClose {
 		b.WriteString("Connection: close\r\n")
+	} else if e.KeepAlive10 {
+		b.WriteString("Connection: keep-alive\r\n")
 	}
 	body := e.reqBody()
 	switch e.ReqFrame {
@@ -359,6 +365,9 @@ func genExchange(t *rapid.T, maxBody int, last bool) Exchange {
 				e.ResHTTP10 = true
 			}
 		}
+	}
+	if !e.HTTP10 && !e.ReqClose && e.ReqFrame != "chunked" && rapid.IntRange(0, 7).Draw(t, "keepalive10") == 0 {
+		e.KeepAlive10 = true
 	}
 	if e.ReqFrame != "none" && e.ReqSize >= 2 && e.ResFrame != "close" && !e.HTTP10 && !e.ResHTTP10 && rapid.IntRange(0, 5).Draw(t, "early") == 0 {
 		e.Early = true
@@ -853,6 +862,12 @@ func classes(c Case) []string {
 		}
 		if e.HTTP10 {
 			flags["http10-request"] = true
+		}
+		if e.KeepAlive10 {
+			flags["http10-keep-alive-request"] = true
+			if e.ResFrame == "chunked" && !e.bodiless() {
+				flags["http10-keep-alive+chunked-response"] = true
+			}
 		}
 		if e.closeMarked() {
 			flags["close-marked"] = true
